@@ -134,6 +134,8 @@ M("align-writes-result-to-start-on-tie", ["C06"], "gaddlemaps/_alignment.py",
   "        if len(self.start) <= len(self.end):\n            self.start.atoms_positions = mol2_positions")
 M("align-moves-end-to-start", ["C06"], "gaddlemaps/_alignment.py",
   "        self.start.move_to(self.end.geometric_center)", "        self.end.move_to(self.start.geometric_center)")
+M("align-move-types-in-hash-order", ["C06"], "gaddlemaps/_alignment.py",
+  "        # Move molecules to share geometric center\n", "        deformation_types = tuple(sorted(deformation_types, key=lambda t: hash(str(t) + 'x')))\n        # Move molecules to share geometric center\n")
 # ---- single-atom move ----------------------------------------------------------------------
 M("move-no-copy", ["C07"], "gaddlemaps/_transform_molecule.py",
   "    atoms_pos = np.copy(atoms_pos)\n", "")
